@@ -78,6 +78,9 @@ func ruleSetDoc(id, pathPrefix string) *node {
 			),
 			"execute", nList(
 				nMap("authenticator", nStr("anon"), "config", nMap("subject", nStr("anon1"))),
+				nMap("authenticator", nStr("jwt_a"), "config", nMap("assertions", nMap(
+					"issuers", nList(nStr("iss")), "audience", nList(nStr("aud")),
+					"scopes", nMap("matching_strategy", nStr("wildcard"), "values", nList(nStr("a.*"), nStr("b")))))),
 				nMap("authorizer", nStr("cel_z"), "if", nStr("Subject.ID != ''"),
 					"config", nMap("expressions", nList(nMap("expression", nStr("true"), "message", nStr("no"))))),
 				nMap("authorizer", nStr("remote_z"), "config", nMap("payload", nStr("{}"), "values", nMap("a", nStr("b")), "cache_ttl", nStr("1s"))),
@@ -95,6 +98,7 @@ func ruleSetDoc(id, pathPrefix string) *node {
 func scriptedFactory() mechanisms.MechanismFactory {
 	return &hx.Factory{Script: hx.AllowAll{}, Specs: map[string]hx.Step{
 		"anon":     {Kind: "authenticator", ID: "anon"},
+		"jwt_a":    {Kind: "authenticator", ID: "jwt_a"},
 		"cel_z":    {Kind: "authorizer", ID: "cel_z"},
 		"remote_z": {Kind: "authorizer", ID: "remote_z"},
 		"ctx":      {Kind: "contextualizer", ID: "ctx"},
